@@ -23,10 +23,10 @@ import (
 	"fmt"
 	"os"
 	"path/filepath"
-	"regexp"
 	"strconv"
 	"strings"
 	"testing"
+	"time"
 
 	intoto "github.com/in-toto/in-toto-golang/in_toto"
 	"verif/harness/lib"
@@ -255,28 +255,15 @@ func asciiHex(s string) bool {
 	return true
 }
 
-var isoRe = regexp.MustCompile(`^(\d{4})-(\d{2})-(\d{2})T(\d{2}):(\d{2}):(\d{2})Z$`)
-var isoFracRe = regexp.MustCompile(`^\d{4}-\d{2}-\d{2}T\d{2}:\d{2}:\d{2}[.,]\d*Z$`)
-
+// "parseable expiry" is what time.Parse(ISO8601DateSchema, s) accepts; expiryParses (validate.go) is the
+// by-hand reading of that parser (mirrors coq/spec/ExpirySpec.v). Where it and time.Parse disagree the oracle
+// makes no claim (and the harness's generation step fails loudly on such a drift).
 func expiryOK(s string, z *fz) bool {
-	if isoFracRe.MatchString(s) {
-		z.skip = true // Go reads a fractional second although the format has none: no claim
-		return false
+	ok := expiryParses(s)
+	if _, err := time.Parse("2006-01-02T15:04:05Z", s); (err == nil) != ok {
+		z.skip = true
 	}
-	m := isoRe.FindStringSubmatch(s)
-	if m == nil {
-		return false
-	}
-	n := func(i int) int { v, _ := strconv.Atoi(m[i]); return v }
-	y, mo, d, h, mi, sec := n(1), n(2), n(3), n(4), n(5), n(6)
-	if mo < 1 || mo > 12 || h > 23 || mi > 59 || sec > 59 || d < 1 {
-		return false
-	}
-	dim := []int{31, 28, 31, 30, 31, 30, 31, 31, 30, 31, 30, 31}[mo-1]
-	if mo == 2 && y%4 == 0 && (y%100 != 0 || y%400 == 0) {
-		dim = 29
-	}
-	return d <= dim
+	return ok
 }
 
 func ruleOK(r []string) bool {
@@ -486,6 +473,12 @@ func seedDocs() [][]byte {
 	add(`{"signed":{"_type":"link","name":"１２ａｂ","materials":{"a":{"sha256":"12ab"}},"products":{},"byproducts":{"stdout":"ctl\u0001x\n"},"command":[],"environment":{}},"signatures":[{"keyid":"12ab","sig":"cd"}]}`)
 	add(`{"signed":{"_type":"layout","steps":[{"_type":"step","pubkeys":["12ab"],"expected_command":[],"threshold":-1,"name":"s","expected_materials":[["CREATE","rel notes.txt"]],"expected_products":[]}],"inspect":[],"keys":{},"expires":"2030-01-02T03:04:05Z","readme":"ａ"},"signatures":[]}`)
 	add(`{"signed":{"_type":"layout","steps":[{"_type":"step","pubkeys":[],"expected_command":[],"threshold":1,"name":"s","expected_materials":[["CREATE","rel","notes.txt"]],"expected_products":[]}],"inspect":[],"keys":{},"expires":"2030-01-02T03:04:05Z","readme":""},"signatures":[]}`)
+	// expiry strings: what Go's time.Parse takes for the layout 2006-01-02T15:04:05Z (one- or two-digit hour,
+	// optional fractional second) and near misses
+	for _, e := range []string{"0000-01-01T0:00:00Z", "0000-01-01T00:00:00Z", "2030-01-02T03:4:05Z", "2030-01-02T03:04:05.5Z",
+		"2030-01-02T3:04:05,25Z", "2030-01-02T03:04:5Z", "2030-01-02T003:04:05Z", "2030-02-29T03:04:05Z", "2032-02-29T23:59:59Z"} {
+		add(`{"signed":{"_type":"layout","steps":[],"inspect":[],"keys":{},"expires":"` + e + `","readme":""},"signatures":[]}`)
+	}
 	// look-alikes of hexadecimal digits in hex-checked fields
 	add(`{"signed":{"_type":"link","name":"x","materials":{"a":{"sha256":"１２ａｂ"}},"products":{},"byproducts":{},"command":[],"environment":{}},"signatures":[]}`)
 	add(`{"signed":{"_type":"link","name":"x","materials":{},"products":{},"byproducts":{},"command":[],"environment":{}},"signatures":[{"keyid":"ａｂ","sig":"cd"},{"keyid":"ab","sig":"٠١"}]}`)
